@@ -12,7 +12,8 @@ TECHNIQUE = ('exhaustive enumeration, by reflection over every declared data-typ
              'instance unchanged and no nested object shared by identity')
 
 KINDS = ('new', 'parse-absent', 'parse-present', 'copy-of-parse-absent', 'mk_copy', 'parse-absent-again',
-         'populated', 'mk_copy-of-populated', 'deepcopy-of-populated', 'parse-of-populated', 'populated-again')
+         'populated', 'mk_copy-of-populated', 'deepcopy-of-populated', 'parse-of-populated', 'populated-again',
+         'parse-of-populated-again')
 
 
 def obtain(cls, kind, proto, extra=None):
@@ -57,7 +58,7 @@ def obtain(cls, kind, proto, extra=None):
             src.descriptor_container = dc
             return c
         return copy.deepcopy(src)
-    if kind == 'parse-of-populated':
+    if kind in ('parse-of-populated', 'parse-of-populated-again'):      # the same XML text parsed twice: nothing may be shared
         src = extra.get('populated')
         return reflect.from_node(cls, reflect.to_node(src, lenient=True), proto) if src is not None else None
     raise ValueError(kind)
